@@ -37,6 +37,7 @@ type Env struct {
 	depth    int
 	retBlock *ssa.BasicBlock // for ensures: loop names of dominating loop headers are visible
 	inOld    bool
+	atSite   bool // site assertion inside a block: variables defined earlier in the same block are visible
 	pats     *map[string][]string // quantified int variable (SMT name) -> index-term patterns found in the body
 }
 
@@ -130,6 +131,14 @@ func isPkgIdent(e *Env, n *Node) *types.Package {
 	}
 	if e.pkg == nil {
 		return nil
+	}
+	// file-level import aliases take precedence (two packages may share a declared name)
+	if path, ok := e.v.eng.importAlias(e.pkg.Path(), n.Name); ok {
+		for _, imp := range e.pkg.Imports() {
+			if imp.Path() == path {
+				return imp
+			}
+		}
 	}
 	for _, imp := range e.pkg.Imports() {
 		if imp.Name() == n.Name {
@@ -404,7 +413,7 @@ func (e *Env) evalIdent(n *Node) specVal {
 	}
 	if e.li == nil && e.retBlock != nil && e.fr != nil {
 		for _, outer := range e.fr.loops {
-			if outer.header.Dominates(e.retBlock) {
+			if outer.header.Dominates(e.retBlock) || outer.header == e.retBlock {
 				if x, ok := outer.names[name]; ok {
 					if val, have := e.fr.vals[x]; have && val.Loc == nil {
 						return specVal{t: val.T, typ: x.Type(), st: e.st}
@@ -523,6 +532,9 @@ func (e *Env) quant(n *Node, q string) specVal {
 		pat := ""
 		seen := map[string]bool{}
 		for _, p := range (*be.pats)[kn] {
+			if strings.Contains(p, "(ite ") {
+				continue // z3 rejects conditionals inside patterns
+			}
 			// a pattern must not mention other bound variables of enclosing quantifiers that are not yet closed: fine in SMT-LIB (they are free here)
 			if !seen[p] {
 				seen[p] = true
@@ -770,6 +782,64 @@ func (e *Env) evalCall(n *Node) specVal {
 		case "enc":
 			x := e.eval(args[0])
 			return specVal{t: v.encVal(x.t, x.typ), typ: tInt}
+		case "sprintf":
+			// sprintf("<const format>", n): the key function shared with the fmt.Sprintf model
+			if args[0].Kind != NStr {
+				e.fail("sprintf() needs a literal format")
+			}
+			x := e.eval(args[1])
+			name := "uf!sprintf!" + sanitize(args[0].Name)
+			f := v.smt.declareFun(name, []string{"Int"}, "Str")
+			v.smt.axiom(fmt.Sprintf("(forall ((a Int) (b Int)) (! (=> (= (%s a) (%s b)) (= a b)) :pattern ((%s a) (%s b))))", f, f, f, f))
+			v.smt.note("sprintf_key_injective: storage keys built by Sprintf(const, n) are injective in n")
+			return specVal{t: app(f, x.t), typ: types.Typ[types.String]}
+		case "sthas", "stblob":
+			k := e.eval(args[0])
+			has, blob := v.storeKeys()
+			if fn.Name == "sthas" {
+				return specVal{t: sel(v.heap(e.st, has), k.t), typ: tBool}
+			}
+			return specVal{t: sel(v.heap(e.st, blob), k.t), typ: tInt}
+		case "stsame":
+			// stsame(): the abstract store is unchanged
+			has, blob := v.storeKeys()
+			return specVal{t: and(eq(v.heap(e.st, has), v.heap(e.old, has)), eq(v.heap(e.st, blob), v.heap(e.old, blob))), typ: tBool}
+		case "stsameexcept":
+			// stsameexcept(key): every other key of the abstract store is unchanged
+			k := e.eval(args[0])
+			has, blob := v.storeKeys()
+			v.smt.n++
+			q := fmt.Sprintf("s!q%d", v.smt.n)
+			return specVal{t: fmt.Sprintf("(forall ((%s Str)) (! (=> (not (= %s %s)) (and (= (select %s %s) (select %s %s)) (= (select %s %s) (select %s %s)))) :pattern ((select %s %s)) :pattern ((select %s %s))))",
+				q, q, k.t, v.heap(e.st, has), q, v.heap(e.old, has), q, v.heap(e.st, blob), q, v.heap(e.old, blob), q, v.heap(e.st, has), q, v.heap(e.st, blob), q), typ: tBool}
+		case "hdrblob":
+			b := e.eval(args[0])
+			v.headerBlobAxioms(fmt.Sprint(tkObject + v.typeTag(v.eng.lookupType(pkgWire, "BlockHeader"))))
+			return specVal{t: app("uf!hdrBlob", b.t), typ: tBool}
+		case "blobntok":
+			b := e.eval(args[0])
+			ntok, _, _, _, _ := v.blobFuns()
+			return specVal{t: app(ntok, b.t), typ: tInt}
+		case "blobhdr":
+			// blobhdr(b, i): the i-th block header of a header blob
+			b := e.eval(args[0])
+			i := e.eval(args[1])
+			_, toks, _, _, _ := v.blobFuns()
+			ht := v.eng.lookupType(pkgWire, "BlockHeader")
+			tokT := sel(app(toks, b.t), i.t)
+			if e.pats != nil {
+				if _, isQ := (*e.pats)[i.t]; isQ {
+					(*e.pats)[i.t] = append((*e.pats)[i.t], tokT)
+				}
+			}
+			return specVal{t: v.decVal("(tk.val "+tokT+")", ht), typ: ht}
+		case "blobtail":
+			b := e.eval(args[0])
+			_, _, _, _, tail := v.blobFuns()
+			return specVal{t: app(tail, b.t), typ: tBool}
+		case "sliceblob":
+			x := e.eval(args[0])
+			return specVal{t: v.sliceBlob(e.st, x.t), typ: tInt}
 		case "bloblen":
 			x := e.eval(args[0])
 			return specVal{t: app(v.smt.declareFun("uf!blobLen", []string{"Int"}, "Int"), x.t), typ: tInt}
@@ -860,6 +930,9 @@ func (e *Env) evalCall(n *Node) specVal {
 			}
 			rt := uf.result(v.eng)
 			f := v.smt.declareFun(uf.smtName, sorts, v.smt.sortOf(rt))
+			if uf.smtName == "uf!errCause" {
+				v.smt.axiom(eq(app(f, "(mk-iface 0 0)"), "(mk-iface 0 0)"))
+			}
 			return specVal{t: app(f, ts...), typ: rt, st: e.st}
 		}
 	}
@@ -932,8 +1005,10 @@ var specUFs = map[string]specUF{
 	"TxHash":        {"uf!TxHash", extType(pkgBitcoin, "Hash32")},
 	"OutpointHash":  {"uf!OutpointHash", extType(pkgBitcoin, "Hash32")},
 	"UnixNano":      {"uf!UnixNano", basicType(types.Int64)},
+	"BlockHashOf":   {"uf!BlockHash", extType(pkgBitcoin, "Hash32")},
 	"TxHashOf":      {"uf!TxHashOf", extType(pkgBitcoin, "Hash32")},
 	"txinCount":     {"uf!txinCount", basicType(types.Int)},
+	"Cause":         {"uf!errCause", func(e *Engine) types.Type { return types.Universe.Lookup("error").Type() }},
 }
 
 var _ = ssa.NaiveForm
@@ -945,7 +1020,7 @@ func (e *Env) sourceVar(name string, at *ssa.BasicBlock) (specVal, bool) {
 	var best *ssa.DebugRef
 	bestDepth, bestIdx := -1, -1
 	for _, b := range e.fr.fn.Blocks {
-		if b == at || !b.Dominates(at) {
+		if (b == at && !e.atSite) || !b.Dominates(at) {
 			continue
 		}
 		depth := 0
